@@ -113,7 +113,7 @@ class C10:
             # status text before the block is entered)
             for _ in range(rng.randint(1, 3)):
                 o2 = self._gen_op(rng, kind, cfg, st)
-                if o2[0] in ("print", "log", "rule", "update", "refresh", "status"):
+                if o2[0] in ("print", "printm", "block", "line", "log", "rule", "update", "refresh", "status"):
                     pre.append(o2)
         if rng.random() < 0.15 and ops:
             # a restart somewhere in the history (stop immediately followed by start)
@@ -139,6 +139,16 @@ class C10:
         r = rng.random()
         H, W = cfg["height"], cfg["width"]
         if r < 0.22:
+            q = rng.random()
+            if q < 0.08:
+                # several renderables in one print call
+                return ["printm", [self._gen_print(rng, st, cfg) for _ in range(rng.randint(2, 3))]]
+            if q < 0.16:
+                # a buffered `with console:` block holding several prints: one write for all of them,
+                # each print hooked on its own
+                return ["block", [self._gen_print(rng, st, cfg) for _ in range(rng.randint(1, 3))]]
+            # (console.line() is not generated: it appends its newlines to the buffer directly, past the
+            # render hooks, and is not among the operations C10 speaks of -- DESIGN 12.2, false alarm t)
             if rng.random() < 0.02:
                 # print(..., end=""): the line stays open (known finding C10-F17 while a display is live)
                 return ["print", self._gen_print(rng, st, cfg), "noeol"]
@@ -171,7 +181,17 @@ class C10:
             if r < 0.85:
                 st["f"] += 1
                 n = rng.choice([1, 1, 1, 2, 3])
-                return ["status", {"t": "text", "lines": ["S%d.%d %s" % (st["f"], j, rng.choice(WORDS)) for j in range(n)]}]
+                opts = {}
+                if rng.random() < 0.3:
+                    # (spinners whose frames are all one cell wide: the glyph is compared as a wildcard cell)
+                    opts["spinner"] = rng.choice(["line", "dots2", "dots"])
+                if rng.random() < 0.2:
+                    opts["spinner_style"] = rng.choice(["red", "bold green", "status.spinner"])
+                if rng.random() < 0.2:
+                    opts["speed"] = rng.choice([0.5, 2.0, 10.0])
+                if opts and rng.random() < 0.4:
+                    return ["status", None, opts]  # status text unchanged
+                return ["status", {"t": "text", "lines": ["S%d.%d %s" % (st["f"], j, rng.choice(WORDS)) for j in range(n)]}, opts]
             return ["sleep", rng.choice([0.05, 0.2])]
         # progress
         limit = H + 3 if cfg["tall_ok"] else H - 1
@@ -261,7 +281,7 @@ class C10:
                 c["cfg"][key] = val
                 yield c
         for j, op in enumerate(ops):
-            for d in ([op[1]] if op[0] in ("print", "update", "status") else []):
+            for d in ([op[1]] if op[0] in ("print", "update", "status") and isinstance(op[1], dict) else []):
                 if d.get("t") == "text" and len(d.get("lines", [])) > 1:
                     c = copy.deepcopy(case)
                     c["ops"][j][1]["lines"] = d["lines"][:-1]
@@ -659,6 +679,27 @@ class Program:
             else:
                 con.print(r, **pkw)
             o.end_op()
+        elif k == "printm":
+            rows = self._print_rows(lambda c: c.print(*[build(d) for d in op[1]]))
+            self.probes["prints_with_several_renderables"] = self.probes.get("prints_with_several_renderables", 0) + 1
+            o.begin_op(["printm", op[1][0]["lines"][0]], [("print", rows)])
+            con.print(*[build(d) for d in op[1]])
+            o.end_op()
+        elif k == "block":
+            stages = [("print", self._print_rows(lambda c, d=d: c.print(build(d)))) for d in op[1]]
+            if self.started:
+                self.probes["buffered_blocks_while_live"] = self.probes.get("buffered_blocks_while_live", 0) + 1
+            o.begin_op(["block", op[1][0]["lines"][0]], stages)
+            with con:
+                for d in op[1]:
+                    con.print(build(d))
+            o.end_op()
+        elif k == "line":
+            rows = self._print_rows(lambda c: c.line(op[1]))
+            self.probes["line_calls"] = self.probes.get("line_calls", 0) + 1
+            o.begin_op(op, [("print", rows)])
+            con.line(op[1])
+            o.end_op()
         elif k == "log":
             rows = self._print_rows(lambda c: c.log(op[1]))
             o.tokens.append(op[1].split(" ")[0])
@@ -729,10 +770,14 @@ class Program:
             self.cur_desc = [op[1]]
             o.end_op()
         elif k == "status":
-            self.cur_desc = [self.cur_desc[-1], op[1]]
+            d = op[1] if op[1] is not None else self.cur_desc[-1]
+            opts = op[2] if len(op) > 2 else {}
+            if opts:
+                self.probes["status_spinner_updates"] = self.probes.get("status_spinner_updates", 0) + 1
+            self.cur_desc = [self.cur_desc[-1], d]
             o.begin_op(["status"], [("frame",)])
-            self.display.update(self._wrap(op[1]))
-            self.cur_desc = [op[1]]
+            self.display.update(self._wrap(op[1]) if op[1] is not None else None, **opts)
+            self.cur_desc = [d]
             o.end_op()
         elif k == "add":
             self._model_op(lambda ts: ts.append({"description": op[1], "total": op[2], "completed": 0, "visible": op[3]}))
